@@ -159,10 +159,36 @@ func observe(b []byte, e *deb.ArEntry, rewind bool) (m memObs) {
 		m.MagicOK = b[m.HdrOff+58] == '`' && b[m.HdrOff+59] == '\n'
 	}
 	if rewind {
-		if _, err := e.Data.Seek(0, io.SeekStart); err != nil {
-			m.Note = "Seek(0): " + err.Error()
-			return
+		// A member out of a loaded package: its Data may be OWNED by a decoder the library started (deb.Data reads the
+		// data member through it, and the zstd decoder reads ahead in goroutines of its own). Moving that reader's
+		// position from here would race with the decoder - the count obtained, and what the decoder sees, would depend
+		// on timing. So the member is measured through ReadAt, which SectionReader serves without touching the position.
+		buf := make([]byte, 8192)
+		var off int64
+		var err error
+		for off <= int64(len(b)) {
+			var n int
+			n, err = e.Data.ReadAt(buf, off)
+			off += int64(n)
+			if err != nil {
+				break
+			}
+			if n == 0 {
+				err = io.ErrNoProgress
+				break
+			}
 		}
+		m.Delivered = off
+		if err != io.EOF {
+			m.Note = fmt.Sprintf("ReadAt ends with %v after %d bytes", err, off)
+		}
+		if !ownedByDecoder(e.Name) {
+			tarProbe(b, e, &m)
+		} else {
+			m.Reread, m.TarOut = -1, "not called"
+			m.IsTar = e.IsTarfile()
+		}
+		return
 	}
 	n, err := io.CopyN(io.Discard, e.Data, int64(len(b))+1)
 	m.Delivered = n
@@ -171,6 +197,20 @@ func observe(b []byte, e *deb.ArEntry, rewind bool) (m memObs) {
 	}
 	tarProbe(b, e, &m)
 	return
+}
+
+// ownedByDecoder: in a loaded package the control.* and data.* members have been handed to Tarfile by the library;
+// their Data is not probed with a second Tarfile / Seek from here (the ar-level scenarios do that on the same bytes).
+func ownedByDecoder(name string) bool {
+	return strings.HasPrefix(name, "control.") || strings.HasPrefix(name, "data.")
+}
+
+func descMem(ms []memObs) string {
+	var parts []string
+	for _, m := range ms {
+		parts = append(parts, fmt.Sprintf("{%q size=%d hdr=%d magic=%v delivered=%d note=%q istar=%v tar=%q reread=%d}", m.Name, m.Size, m.HdrOff, m.MagicOK, m.Delivered, m.Note, m.IsTar, m.TarOut, m.Reread))
+	}
+	return strings.Join(parts, " ")
 }
 
 type arOutcome struct {
@@ -366,7 +406,7 @@ func evalAr(b []byte, conv int) (fs []finding, class string) {
 	memberFindings(b, o.Mem, add)
 	o2 := driveAr(b, conv)
 	if o2.Open != o.Open || o2.End != o.End || !sameMem(o.Mem, o2.Mem) {
-		add(finding{"deterministic", fmt.Sprintf("same outcome twice: members=%d end=%s", len(o.Mem), o.End), fmt.Sprintf("second run: members=%d end=%s", len(o2.Mem), o2.End)})
+		add(finding{"deterministic", fmt.Sprintf("same outcome twice: members=%d end=%s", len(o.Mem), o.End), fmt.Sprintf("second run: members=%d end=%s | first: %s | second: %s", len(o2.Mem), o2.End, descMem(o.Mem), descMem(o2.Mem))})
 	}
 	return
 }
@@ -397,7 +437,7 @@ func evalLoad(b []byte, conv int) (fs []finding, class string) {
 	}
 	if o2.Res != o.Res || o2.CtlExt != o.CtlExt || o2.DataExt != o.DataExt || o2.Pkg != o.Pkg || !sameMem(o.Mem, o2.Mem) {
 		add(finding{"deterministic", fmt.Sprintf("same outcome twice: %s control%s data%s package=%q members=%d", o.Res, o.CtlExt, o.DataExt, o.Pkg, len(o.Mem)),
-			fmt.Sprintf("second load: %s control%s data%s package=%q members=%d", o2.Res, o2.CtlExt, o2.DataExt, o2.Pkg, len(o2.Mem))})
+			fmt.Sprintf("second load: %s control%s data%s package=%q members=%d | first: %s | second: %s", o2.Res, o2.CtlExt, o2.DataExt, o2.Pkg, len(o2.Mem), descMem(o.Mem), descMem(o2.Mem))})
 	}
 	return
 }
